@@ -170,7 +170,16 @@ def to_int(ip, v):
             t = v.t
             return Sym(z3.If(t >= 0, z3.ToInt(t), -z3.ToInt(-t)), 'int')
         if v.ty == 'str':
-            raise Unsupported('int(str) symbolic')
+            t = z3.simplify(v.t) if z3.is_seq(v.t) else v.t
+            if z3.is_app(t) and t.decl().name() == 'py_str_of_int':
+                used(ip, 'int(str(k)) = k for python ints (decimal text of an int parses back to it)')
+                return ops.concretize(Sym(t.children()[0], 'int'))
+            if not z3.is_seq(v.t):
+                raise Unsupported('int(str) of an opaque string')
+            used(ip, 'int(s) of an arbitrary string: ValueError or some int (uninterpreted)')
+            if ip.ctx.choose(2) == 1:
+                ip.ctx.raise_exc('ValueError', 'invalid literal for int()')
+            return Sym(PY_INT_OF_STR(v.t), 'int')
     if isinstance(v, str):
         try:
             return int(v)
@@ -456,9 +465,17 @@ def b_callable(ip, v):
     return False
 
 
+PY_STR_OF_INT = z3.Function('py_str_of_int', IntSort, StrSort)
+PY_INT_OF_STR = z3.Function('py_int_of_str', StrSort, IntSort)
+
+
 def b_str(ip, v=''):
+    if isinstance(v, Sym) and v.ty == 'int' and v.cls is None:
+        return Sym(PY_STR_OF_INT(v.t), 'str')          # the decimal text of the int (uninterpreted; int() inverts it)
     if isinstance(v, str):
         return v
+    if isinstance(v, Sym) and v.ty == 'str':
+        return v            # str(s) of a string is the string itself
     if isinstance(v, int) and not isinstance(v, bool):
         return str(v)
     return OPAQUE_STR
